@@ -2,4 +2,4 @@ From Coq Require Import Extraction ExtrOcamlBasic.
 From JV Require Import Base.Bytes Base.Dec Model.Wire Model.SinkQueue.
 Extraction Language OCaml.
 Extraction "../modelrun/gen/sinkbp_model.ml" Byte.to_N Byte.of_N print_N digits_val
-  Wire.parse_sub_notif Wire.k_result SinkQueue.init SinkQueue.step SinkQueue.run SinkQueue.to_json SinkQueue.oklog.
+  Wire.parse_sub_notif Wire.k_result Wire.ser_subid SinkQueue.init SinkQueue.step SinkQueue.run SinkQueue.to_json SinkQueue.oklog.
